@@ -154,8 +154,7 @@ class CFGBuilder(AstVisitor[BB | None]):
 
             if next_functional:
                 # TODO: This should be an assertion that the Hugr can be un-flattened
-                raise NotImplementedError
-                next_functional = False
+                raise GuppyError(UnsupportedError(node, "Functional annotations"))
             else:
                 prev_bb, bb_opt = bb_opt, self.visit(node, bb_opt, jumps)
         return bb_opt
